@@ -420,8 +420,10 @@ class RefusalModel:
         if not self.chains:
             raise AnalysisError(f"{a.fn.where()}: no refusal found before the evaluation in the binary branch")
 
-    def refused(self, rule_name: str, u0, u1, globals_: dict):
-        """the raise statement that fires for operand units (u0, u1) under unit rule `rule_name`, or None"""
+    def refused(self, rule_name: str, u0, u1, globals_: dict, assume=()):
+        """the raise statement that fires for operand units (u0, u1) under unit rule `rule_name`, or None.  Tests listed
+        in `assume` are taken as passed (used for states reached by re-binding a unit name inside a block whose entry
+        test was decided on the earlier binding)."""
         from engine.dtable import Folder, Tok
 
         toks = globals_.setdefault("__rule_tokens__", {})
@@ -434,7 +436,7 @@ class RefusalModel:
         f = Folder(self.a.mod, self.a.fn, env, g)
         for st, conds in self.chains:
             try:
-                if all(f.truth(t) == pol for t, pol in conds):
+                if all(f.truth(t) == pol for t, pol in conds if not any(t is x for x in assume)):
                     return st
             except AnalysisError:
                 continue
